@@ -40,6 +40,17 @@ def build(seed, prop, idx, o=None):
         pool = ["turnout", "dem", "gop"]
         k = int(o.get("n_estimands", gen.choice(rng, [1, 1, 2, 3])))
         estimands = o.get("estimands") or [pool[i] for i in rng.permutation(3)[:k]]
+        if "estimands" not in o and o.get("allow_pointer_config", True) and rng.random() < 0.12:
+            # primary-style config: new candidates whose baselines point at a previous candidate (two of them at the
+            # same one); the feed carries their own result columns
+            pointer = {"turnout": "turnout", "dem": "dem", "gop": "gop", "cand_a": "dem", "cand_b": "dem", "cand_c": "gop"}
+            el.config[el.election_id][0]["baseline_pointer"] = pointer
+            sh = float(rng.uniform(0.2, 0.8))
+            feed["results_cand_a"] = (feed["results_dem"] * sh) // 1
+            feed["results_cand_b"] = feed["results_dem"] - feed["results_cand_a"]
+            feed["results_cand_c"] = feed["results_gop"]
+            pool2 = ["cand_a", "cand_b", "cand_c", "turnout"]
+            estimands = [pool2[j] for j in rng.permutation(4)[: max(2, k)]]
         features = o.get("features")
         if features is None:
             features = [f for f in ("x1", "x2") if rng.random() < 0.5]
